@@ -6,6 +6,7 @@ From AS Require Import Base Effects.
 From AS.Spec Require Import Terminal.
 From AS.Model Require Import Sgr.
 From AS.Proofs Require Import GenCodeTable SgrProofs GenFns.
+From AS.Proofs Require SgrJunk.
 
 (* the repository's code table and the specification's terminal classify every code alike *)
 Theorem C18_table : forall c : N, gen_class c = spec_class c.
@@ -43,6 +44,35 @@ Print Assumptions C18_erroneous.
 Theorem C18_string : forall (cs : list N) (ae : bool), cs <> [] -> pgs_str (textN cs) ae = pgs_codes cs ae.
 Proof. exact C18_string_main. Qed.
 Print Assumptions C18_string.
+
+(* items that are not numbers ('x', '+1', '1.5', non-ASCII digits: as repaired, known_findings F33 / F34) contribute nothing
+   AND end an extended-colour group in progress: the numbers between two such items are code lists of their own, parsed
+   one after the other - so the reduced state is the one a terminal reaches when it receives the runs as separate
+   sequences, on top of any prior state *)
+Theorem C18_junk_runs : forall items, SgrJunk.norm_ok items ->
+  pgs_loop items 0 [] false = OK (concat (map (fun run => map textN (pgs_gN run 0 [])) (SgrJunk.runs_of items))).
+Proof. exact SgrJunk.pgs_loop_runs. Qed.
+Print Assumptions C18_junk_runs.
+
+Theorem C18_junk_state : forall items d, SgrJunk.norm_ok items -> nodupk d ->
+  exists texts, pgs_loop items 0 [] false = OK texts /\
+  teq (as_t (s2d (fun x => x) texts d)) (fold_left (fun t run => sgr spec_class t run) (SgrJunk.runs_of items) (as_t d)).
+Proof. exact SgrJunk.pgs_runs_state. Qed.
+Print Assumptions C18_junk_state.
+
+(* add_erroneous=True: one chunk per piece of the input, in order - a run of numbers comes back as groups whose
+   concatenation is the run, a non-number as itself *)
+Theorem C18_junk_erroneous : forall items, SgrJunk.norm_ok items -> SgrJunk.strs_nonempty items ->
+  exists chunks, pgs_loop items 0 [] true = OK (concat chunks) /\ Forall2 SgrJunk.renders (SgrJunk.pieces items) chunks.
+Proof. exact SgrJunk.pgs_loop_runs_erroneous. Qed.
+Print Assumptions C18_junk_erroneous.
+
+(* the ';'-separated string front end *)
+Theorem C18_junk_string : forall w, w <> [] ->
+  pgs_str w false = OK (concat (map (fun run => map textN (pgs_gN run 0 []))
+                                    (SgrJunk.runs_of (map norm_item_pgs (items_of_str w))))).
+Proof. exact SgrJunk.pgs_str_runs. Qed.
+Print Assumptions C18_junk_string.
 
 (* non-vacuity / regression witnesses: a colour group after another code stays intact (F2), an
    empty parameter is 0 (F3), an out-of-range group is dropped (F4) *)
